@@ -414,6 +414,7 @@ func (o *ObjectSchema) validateMapTypesCompatibility(data map[string]any) error 
 		if property.Required() && data[k] == nil {
 			return &ConstraintError{
 				Message: fmt.Sprintf("error while validating fields of objects %s, could not find required field %s", o.ReflectedType().String(), k),
+				Path:    []string{k},
 			}
 		}
 	}
